@@ -89,10 +89,12 @@ static void job_gen(rng_t *r, int thorough, char ty, int forced_kind, job_t *j) 
     j->symm = rng_chance(r, 0.2); j->condnum = rng_chance(r, 0.7); j->pivg = rng_chance(r, 0.7); j->extra = rng_int(r, 0, 3);
     { static const double us[] = { 1.0, 1.0, 0.5, 0.1, 0.001, 0.0 }; j->u = us[rng_int(r, 0, 5)]; }
     if (j->symm && j->colperm != 2) j->symm = (j->kind == JOB_PERM);
-    { static const int rules[] = { DROP_BASIC | DROP_AREA, DROP_BASIC, DROP_BASIC | DROP_PROWS, DROP_BASIC | DROP_COLUMN, DROP_BASIC | DROP_DYNAMIC, DROP_BASIC | DROP_INTERP | DROP_AREA };
-      j->ilu_drop = rules[rng_int(r, 0, 5)]; }
+    /* ILU options: the basic rule or the default (BASIC|AREA) with the default fill factor; the other
+       secondary rules with small fill factors overflow dwork2 in ilu_?copy_to_ucol.c:175 (a C15/C19
+       finding, reproduced by fam_lifecycle) and would only add noise to a schedule test */
+    j->ilu_drop = rng_chance(r, 0.5) ? DROP_BASIC : (DROP_BASIC | DROP_AREA);
     j->ilu_milu = rng_int(r, 0, 3); j->ilu_rowperm = rng_chance(r, 0.5); j->ilu_norm = rng_int(r, 0, 2);
-    j->ilu_droptol = rng_chance(r, 0.3) ? 0.0 : 1e-4 * rng_int(r, 1, 100); j->ilu_fill = 1.0 + rng_int(r, 0, 9);
+    j->ilu_droptol = rng_chance(r, 0.3) ? 0.0 : 1e-4 * rng_int(r, 1, 100); j->ilu_fill = 10.0;
 }
 static void job_free(job_t *j) { gmat_free(&j->g); free(j->bre); free(j->bim); }
 
